@@ -2,8 +2,11 @@ package oxc
 
 import (
 	"strconv"
+	"time"
 
+	time2 "github.com/oxia-db/oxia/common/time"
 	"github.com/oxia-db/oxia/proto"
+	"github.com/oxia-db/oxia/server"
 	"github.com/oxia-db/oxia/server/kv"
 
 	"verif/lib/oxh"
@@ -22,3 +25,33 @@ func oxhMemFactory() kv.Factory { return oxh.NewMemFactory() }
 
 // dumpDB renders the log-derived content of a database (term records are not log-derived).
 func dumpDB(d kv.DB) []string { return oxh.DumpDB(d, oxh.DumpOpts{SkipTerm: true}) }
+
+// FoldDiffers applies entries 0..upTo (a contiguous log starting at offset 0) in order to a fresh
+// database, the way every replica does, and compares the result with db. It returns "" when
+// they are equal, otherwise a description.
+func FoldDiffers(ns string, shard int64, db kv.DB, entries []*proto.LogEntry, upTo int64) string {
+	ref, err := kv.NewDB(ns, shard, oxhMemFactory(), time.Hour, time2.SystemClock)
+	if err != nil {
+		return ""
+	}
+	defer ref.Close()
+	for _, e := range entries {
+		if e.Offset > upTo {
+			break
+		}
+		lev := &proto.LogEntryValue{}
+		if lev.UnmarshalVT(e.Value) != nil {
+			return ""
+		}
+		for _, w := range lev.GetRequests().GetWrites() {
+			if _, err := ref.ProcessWrite(w, e.Offset, e.Timestamp, server.WrapperUpdateOperationCallback); err != nil && !kv.IsInvalidRequestError(err) {
+				return ""
+			}
+		}
+	}
+	want, got := dumpForCompare(ref), dumpForCompare(db)
+	if want != got {
+		return "have: " + got + "\n want: " + want
+	}
+	return ""
+}
